@@ -4,6 +4,7 @@
 package runner
 
 import (
+	"encoding/hex"
 	"errors"
 	"fmt"
 	"io"
@@ -93,6 +94,8 @@ type Random struct {
 	Faults int     `json:"faults"` // fault budget
 	// Inbound messages the broker publishes to the client at random moments.
 	Inbound []Inbound `json:"inbound"`
+	// Hostile byte strings the broker sends at random moments (property C13).
+	Hostile []Hostile `json:"hostile"`
 	// Gens are the process sets of the generations after a stop (one stop + adopt per entry).
 	Gens  []map[string]ProcSpec `json:"gens"`
 	PStop float64               `json:"pstop"`
@@ -101,6 +104,13 @@ type Random struct {
 	Burst *Burst `json:"burst,omitempty"`
 	// Damage lists store damages applied between a stop and the following adopt.
 	Damage []Step `json:"damage"`
+}
+
+// Hostile is one injection of raw broker-to-client bytes.
+type Hostile struct {
+	Hex       string `json:"hex"`
+	Violation bool   `json:"violation"` // a protocol violation the client has to answer with a reset
+	Note      string `json:"note"`
 }
 
 // Burst see Random.Burst.
@@ -999,6 +1009,7 @@ func (x *Exec) randomRun(r *Random) {
 	settle := 0
 	stalled := map[string]int{} // consecutive deadline expiries given to a reading process
 	inbound := append([]Inbound(nil), r.Inbound...)
+	hostile := append([]Hostile(nil), r.Hostile...)
 	gens := append([]map[string]ProcSpec(nil), r.Gens...)
 	for n := 0; n < r.Max; n++ {
 		if last != "" {
@@ -1045,6 +1056,18 @@ func (x *Exec) randomRun(r *Random) {
 				inbound = inbound[1:]
 				x.emit(sim.Ev{"e": "step", "i": n + 1, "env": "inject", "c": c.ID()})
 				x.W.Broker.Publish(c, in.QoS, "in/t", codec.Payload(in.Tag, in.Size), false)
+				continue
+			}
+		}
+		if len(hostile) > 0 && x.Client != nil && rng.Intn(6) == 0 {
+			if c := x.W.Conn(len(x.W.Conns())); c != nil && !c.IsClosed() && c.Established() {
+				h := hostile[0]
+				hostile = hostile[1:]
+				raw, _ := hex.DecodeString(h.Hex)
+				x.emit(sim.Ev{"e": "step", "i": n + 1, "env": "hostile", "c": c.ID()})
+				// judged as a violation only when it starts at a packet boundary of the stream
+				x.W.Rec.Emit(sim.Ev{"e": "bsraw", "c": c.ID(), "n": len(raw), "note": h.Note, "violation": h.Violation && c.Aligned()})
+				c.Inject(raw)
 				continue
 			}
 		}
